@@ -33,7 +33,7 @@ ASSUMPTIONS = ['the documented rules as written in vpx/models/rglob.py are the s
 EXHAUSTIVE = True
 TOK = ['a', 'b', '*', '**']
 MULTI = ['a/**/b/**/a', '**/a/**', '**/**/a', 'a/**/**/b', '*/**/a/*', '**/a/**/b/**', 'a/*/**/b',
-         '**/*/**/a', 'a/**/*/**/b']
+         '**/*/**/a', 'a/**/*/**/b', '**/[a]/**/b', 'a/**/[b]/**/c']
 DIRPATS = ['a/*/', '**/', 'a/**/b/', '*/']
 FILTERS = [
     {'include': ['a/**/b', 'b/*'], 'exclude': ['c'], 'extra': ['a']},
@@ -110,7 +110,7 @@ def obligations(tier, kf):
     obs.append(Ob('w_walk', dict(WALKS[1], nodes=7), 600).mutant('filter_exclude_not_recursive'))
     obs.append(Ob('w_walk', dict(WALKS[0], nodes=7), 600).mutant('find_cache_drops_last'))
     obs.append(Ob('w_walk', dict(WALKS[5], nodes=7), 600).mutant('uniquetrees_string_sort'))
-    obs.append(Ob('g_match', {'pattern': '**/*/**/a', 'M': 4}, 300).mutant('glob_starstar_flag_sticky'))
+    obs.append(Ob('g_match', {'pattern': '**/[a]/**/b', 'M': 4}, 300).mutant('glob_starstar_flag_sticky'))
     return obs
 
 
